@@ -327,30 +327,32 @@ func c17Concurrent(c *vk.Ctx) {
 		var swg sync.WaitGroup
 		var scrapes atomic.Int64
 		var monoViol atomic.Value
-		swg.Add(1)
-		go func() {
-			defer swg.Done()
-			last := map[string]float64{}
-			for {
-				select {
-				case <-stop:
-					return
-				default:
-				}
-				mfs, err := reg.Gather()
-				if err != nil {
-					monoViol.Store("gather error: " + err.Error())
-					return
-				}
-				for k, v := range counterBy(mfs, "tunnel_time_seconds", "access_key") {
-					if v+1e-9 < last[k] {
-						monoViol.Store(fmt.Sprintf("tunnel_time_seconds{%s} went from %v to %v", k, last[k], v))
+		for scr := 0; scr < 2; scr++ { // two scrapers at once (e.g. two Prometheus servers)
+			swg.Add(1)
+			go func() {
+				defer swg.Done()
+				last := map[string]float64{}
+				for {
+					select {
+					case <-stop:
+						return
+					default:
 					}
-					last[k] = v
+					mfs, err := reg.Gather()
+					if err != nil {
+						monoViol.Store("gather error: " + err.Error())
+						return
+					}
+					for k, v := range counterBy(mfs, "tunnel_time_seconds", "access_key") {
+						if v+1e-9 < last[k] {
+							monoViol.Store(fmt.Sprintf("tunnel_time_seconds{%s} went from %v to %v", k, last[k], v))
+						}
+						last[k] = v
+					}
+					scrapes.Add(1)
 				}
-				scrapes.Add(1)
-			}
-		}()
+			}()
+		}
 		var wg sync.WaitGroup
 		for g := 0; g < G; g++ {
 			wg.Add(1)
@@ -421,8 +423,13 @@ func c17Concurrent(c *vk.Ctx) {
 			}
 		}
 		sumLoc := 0.0
-		for _, v := range counterBy(mfs, "tunnel_time_seconds_per_location", "location") {
+		for loc, v := range counterBy(mfs, "tunnel_time_seconds_per_location", "location") {
 			sumLoc += v
+			if loc == "" && v != 0 {
+				// the database is enabled in this rig: no client maps to the empty label
+				c.Violation("C17/concurrent/time-reported-under-empty-location", map[string]any{"seconds": v})
+				return
+			}
 		}
 		sumKey := 0.0
 		for _, v := range perKey {
